@@ -321,7 +321,13 @@ func (p goTypes) cvtStruct(typ *types.Struct) (raw *types.Struct, cvt bool) {
 		flds[i] = f
 	}
 	if needcvt {
-		return types.NewStruct(flds, nil), true
+		// The converted struct keeps its field tags: they are part of the
+		// type's identity and are reported by reflection.
+		tags := make([]string, n)
+		for i := range tags {
+			tags[i] = typ.Tag(i)
+		}
+		return types.NewStruct(flds, tags), true
 	}
 	return typ, false
 }
